@@ -1239,6 +1239,203 @@ theorem Chain.head_stored {st : St} {g : Genesis} {id : Id} {s : Stored} {l : Li
   | root s' h0 => simp at hc; rw [hc.1]; exact h0
   | step _ s' l' _ hs _ => simp at hc; rw [hc.1]; exact hs
 
+/-! ## `SyncBlockHeader` never panics and never fails internally -/
+
+/-- error classes that stand for "cannot happen": exhausted loop fuel, a stored record that is missing or does not
+parse, no canonical head, no trust root although a parent is stored, block number 0 with a stored parent -/
+def internalRej : Rej → Bool
+  | .fuel | .getHeader | .parse | .nocanon | .nogenesis | .block0 => true
+  | _ => false
+
+def internalOut : Out → Bool
+  | .panic => true
+  | .reject r => internalRej r
+  | _ => false
+
+theorem epochs_head_facts {R : Router} {st : St} {g : Genesis} (hG : GenOK g) :
+    ∀ {id c}, GChain R st g id c → ∀ s rest, c = s :: rest → ∀ e1 tl, epochs g c = e1 :: tl →
+      e1.vals ≠ [] ∧ e1.height ≤ s.hdr.number := by
+  intro id c h
+  induction h with
+  | root _ =>
+    intro s rest hc e1 tl he
+    simp at hc
+    obtain ⟨rfl, rfl⟩ := hc
+    simp [epochs] at he
+    obtain ⟨rfl, _⟩ := he
+    simp only [hG.pv0, rootOf]
+    exact ⟨hG.valsNe, Nat.le_refl _⟩
+  | step id s l hne hs hid hc hg ih =>
+    intro s' rest hc' e1 tl he
+    simp at hc'
+    obtain ⟨rfl, rfl⟩ := hc'
+    obtain ⟨p, rest', hl, hnum, _⟩ := hg.link
+    subst hl
+    by_cases hep : s.hdr.isEpoch = true
+    · simp [epochs, hep] at he
+      obtain ⟨rfl, _⟩ := he
+      exact ⟨vals_ne_nil s.hdr hep hg.wf.mult, Nat.le_refl _⟩
+    · have hep' : s.hdr.isEpoch = false := by simpa using hep
+      simp [epochs, hep'] at he
+      have := ih p rest' rfl e1 tl he
+      exact ⟨this.1, by omega⟩
+
+theorem inEffect_ne_nil {R : Router} {st : St} {g : Genesis} (hG : GenOK g) {id : Id} {p : Stored} {l : List Stored}
+    (hc : GChain R st g id (p :: l)) {n : Nat} (hn : p.hdr.number < n) : inEffect R g n (p :: l) ≠ [] := by
+  obtain ⟨e1, e2, tl, he, _⟩ := epochs_two hc
+  obtain ⟨h1, h2⟩ := epochs_head_facts hG hc p l rfl e1 (e2 :: tl) he
+  unfold inEffect
+  rw [he]
+  simp only
+  split
+  · rename_i hcond
+    simp at hcond
+    intro hnil
+    rw [hnil] at hcond
+    simp at hcond
+    omega
+  · exact h1
+
+theorem checkTurn_err (h : Hdr) (signer : Addr) (k : Nat) :
+    ∀ (V : List Addr) (idx : Nat) (valid : Bool) (e : Rej), checkTurn h signer k V idx valid = .error e → e = .turn := by
+  intro V
+  induction V with
+  | nil => intro idx valid e hc; simp [checkTurn] at hc
+  | cons v vs ih =>
+    intro idx valid e hc
+    simp only [checkTurn] at hc
+    split at hc
+    · split at hc
+      · split at hc
+        · cases hc; rfl
+        · exact ih _ _ _ hc
+      · split at hc
+        · cases hc; rfl
+        · exact ih _ _ _ hc
+    · exact ih _ _ _ hc
+
+theorem inTurnSet_err {R : Router} {h : Hdr} {phv pphv : HV} {e : Rej} (hs : inTurnSet R h phv pphv = .error e) :
+    e = .epoch := by
+  unfold inTurnSet at hs
+  split at hs
+  · split at hs
+    · split at hs
+      · cases hs; rfl
+      · cases hs
+    · cases hs
+  · split at hs
+    · cases hs; rfl
+    · cases hs
+
+theorem verifyHeader_err {R : Router} {p : Stored} {h : Hdr} {e : Rej} (hv : verifyHeader R p h = .error e) :
+    internalRej e = false := by
+  unfold verifyHeader at hv
+  by_cases c1 : h.extra.length < extraVanity
+  · rw [if_pos c1] at hv; cases hv; rfl
+  rw [if_neg c1] at hv
+  by_cases c2 : h.extra.length < extraVanity + extraSeal
+  · rw [if_pos c2] at hv; cases hv; rfl
+  rw [if_neg c2] at hv
+  by_cases c3 : ((h.extra.length - extraVanity - extraSeal) % addrLen != 0) = true
+  · rw [if_pos c3] at hv; cases hv; rfl
+  rw [if_neg c3] at hv
+  by_cases c4 : (!h.mixZero) = true
+  · rw [if_pos c4] at hv; cases hv; rfl
+  rw [if_neg c4] at hv
+  by_cases c5 : (!h.uncleOk) = true
+  · rw [if_pos c5] at hv; cases hv; rfl
+  rw [if_neg c5] at hv
+  by_cases c6 : (h.difficulty != diffInTurn && h.difficulty != diffNoTurn) = true
+  · rw [if_pos c6] at hv; cases hv; rfl
+  rw [if_neg c6] at hv
+  by_cases c7 : (!R.capLate && decide (h.gasLimit > gasCap)) = true
+  · rw [if_pos c7] at hv; cases hv; rfl
+  rw [if_neg c7] at hv
+  by_cases c8 : (p.hdr.number + 1 != h.number) = true
+  · rw [if_pos c8] at hv; cases hv; rfl
+  rw [if_neg c8] at hv
+  by_cases c9 : (R.capLate && decide (h.gasLimit > gasCap)) = true
+  · rw [if_pos c9] at hv; cases hv; rfl
+  rw [if_neg c9] at hv
+  by_cases c10 : periodBad R p h = true
+  · rw [if_pos c10] at hv; cases hv; rfl
+  rw [if_neg c10] at hv
+  by_cases c11 : h.gasUsed > h.gasLimit
+  · rw [if_pos c11] at hv; cases hv; rfl
+  rw [if_neg c11] at hv
+  by_cases c12 : (R.baseFeeNil && h.baseFee.isSome) = true
+  · rw [if_pos c12] at hv; cases hv; rfl
+  rw [if_neg c12] at hv
+  by_cases c13 : gasLimitBad R p h = true
+  · rw [if_pos c13] at hv; cases hv; rfl
+  rw [if_neg c13] at hv
+  by_cases c14 : h.number = 0
+  · simp at c8; omega
+  rw [if_neg c14] at hv
+  cases hsig : h.signer with
+  | none => rw [hsig] at hv; cases hv; rfl
+  | some s =>
+    rw [hsig] at hv
+    simp only at hv
+    by_cases hsc : (s != h.coinbase) = true
+    · rw [if_pos hsc] at hv; cases hv; rfl
+    · rw [if_neg hsc] at hv; cases hv
+
+/-- Under the invariant no header makes `SyncBlockHeader` panic (the modulus `len(validators)` is never zero) or fail
+with an internal error: the walks over stored ancestors always find their records, the unbounded loops end within their
+fuel, and `addHeader` always finds the canonical head. -/
+theorem syncHeader_total {R : Router} {st : St} (hI : Inv R st) (h : Hdr) :
+    internalOut (syncHeader R st h).2 = false := by
+  unfold syncHeader
+  cases h1 : st.hdrs h.id with
+  | some _ => simp [internalOut]
+  | none =>
+    simp only [Option.isSome_none, Bool.false_eq_true, if_false]
+    cases h2 : st.hdrs h.parent with
+    | none => rfl
+    | some p =>
+      simp only
+      cases h3 : verifyHeader R p h with
+      | error e => simp only [internalOut]; exact verifyHeader_err h3
+      | ok signer =>
+        simp only
+        cases h4 : st.genesis with
+        | none => rw [(hI.noGen h4).1] at h2; cases h2
+        | some g =>
+          simp only
+          obtain ⟨hG, hroot, hall, hCI⟩ := hI.gen g h4
+          obtain ⟨l, hc0⟩ := hall h.parent p h2
+          have hp : h.parent = p.hdr.id := hc0.head_id.1.symm
+          have hc : GChain R st g p.hdr.id (p :: l) := by rw [← hp]; exact hc0
+          obtain ⟨hwf, hnum, hsig, hsc⟩ := verifyHeader_ok h3
+          obtain ⟨phv, pphv, ls, e1, e2, tl, hp1, hep, hp3, hp4, hp5, hp6⟩ := prevHV_spec hc hp
+          rw [hp1]
+          simp only
+          cases h6 : inTurnSet R h phv pphv with
+          | error e => simp only [internalOut]; rw [inTurnSet_err h6]; rfl
+          | ok inTurn =>
+            simp only
+            obtain ⟨hv, _⟩ := inTurnSet_ok hep hp3 hp4 h6
+            by_cases h7 : recentBad ls h.number (inTurn.vals.length / 2) = true
+            · rw [if_pos h7]; rfl
+            · rw [if_neg h7]
+              have hne : inTurn.vals.length ≠ 0 := by
+                intro h0
+                have := inEffect_ne_nil (R := R) hG hc (n := h.number) (by omega)
+                rw [← hv] at this
+                exact this (List.eq_nil_of_length_eq_zero h0)
+              rw [if_neg hne]
+              cases h9 : checkTurn h signer (h.number % inTurn.vals.length) inTurn.vals 0 false with
+              | error e => simp only [internalOut]; rw [checkTurn_err _ _ _ _ _ _ _ h9]; rfl
+              | ok b =>
+                cases b with
+                | false => rfl
+                | true =>
+                  simp only
+                  obtain ⟨st'', ha1, _⟩ := addHeader_spec hCI phv h1 hc hp hnum
+                  rw [ha1]
+                  rfl
+
 /-! ## A concrete history (non-vacuity of the property statements) -/
 namespace Example
 
